@@ -239,6 +239,32 @@ def run(ctx):
             "want": hx(want_lines[k] if k < len(want_lines) else b""), "stderr": err.decode(errors="replace")[-500:]},
             summary=f"remove_invalid_utf8 output differs from the well-formed subsequence at output line {k} (status {st})")
 
+    # 3b. line ends: CRLF lines and a last line without terminator, via pipe and regular file, arriving in one piece and in two
+    #     (the bytes behind a line in the reader's buffer are not part of it)
+    good_ = ["abc", "h\u00e9llo", "", "\u20ac 5", "end"]
+    for eol in (b"\n", b"\r\n"):
+        for last_nl in (True, False):
+            body = eol.join(g.encode() for g in good_) + (eol if last_nl else b"")
+            want_ = b"".join(g.encode() + b"\n" for g in good_)
+            filler = b"".join(b"\xc3\xa9" * 40 + b"\n" for _ in range(30))      # earlier, longer data leaves high bytes behind in the buffer
+            for back in ("pipe", "file", "after-filler"):
+                if back == "file":
+                    f_ = os.path.join(ctx.tmp, "eol.txt")
+                    open(f_, "wb").write(body)
+                    st, out, err = pvlib.run_tool([ctx.bin("remove_invalid_utf8")], env=pvlib.san_env(), stdin_file=f_)
+                    w_ = want_
+                elif back == "pipe":
+                    st, out, err = pvlib.run_tool([ctx.bin("remove_invalid_utf8")], body, env=pvlib.san_env())
+                    w_ = want_
+                else:
+                    st, out, err = pvlib.run_tool([ctx.bin("remove_invalid_utf8")], filler + body, env=pvlib.san_env())
+                    w_ = filler + want_
+                ctx.count("remove_invalid_utf8.line-ends", 1, [(eol, last_nl, back)])
+                if st != 0 or out != w_:
+                    pvlib.report_violation(ctx, f"tool:remove_invalid_utf8-eol:{hx(eol)}:{last_nl}:{back}", {"argv": ["remove_invalid_utf8"], "stdin_hex": hx((filler if back == "after-filler" else b"") + body)[:6000],
+                                           "backing": back, "status": st, "got_tail": hx(out[-60:]), "want_tail": hx(w_[-60:])},
+                                           summary=f"remove_invalid_utf8 ({back}) on well-formed lines ending in {eol!r}{'' if last_nl else ', the last one unterminated'}: output ends {out[-30:]!r}, expected {w_[-30:]!r} (status {st})")
+                    return
     # 4. the other tools that promise well-formed output: nothing ill-formed may come out of commoncrawl_dedupe, and no piece that
     #    foldfilter hands to its child may be ill-formed, whatever the width (lines shorter than, equal to and longer than it)
     ill = [b"caf\xe9 cr\xe8me", b"tail \xc3", b"\x80 stray", b"over\xc0\xaflong", b"sur\xed\xa0\x80rogate", b"big \xf4\x90\x80\x80", b"\xff", b"ok then \xe2\x82"]
